@@ -13,25 +13,33 @@ package keeper
 
 //@ ghost bal map[Bytes]CV
 //@ ghost balHas map[Bytes]bool
+// balOK: the stored record holds a well-formed coin set (every write goes through SetCoins,
+// which writes only well-formed sets: [valid-written])
+//@ ghost balOK map[Bytes]bool
 //@ ghost supplyCV CV
 //@ pure modAddr(name Str) Bytes
 //@ pure modKnown(name Str) bool
 
 //@ func (Keeper).GetAccount
 //@   trusted store read + codec: a freshly decoded account object carrying the stored address and coins
-//@   modifies acctCV
+//@   modifies acctCV, acctOK
 //@   ensures (result != nil) == balHas[bytes(addr)]
-//@   ensures result != nil ==> accAddr(result) == bytes(addr) && acctCV[result] == bal[bytes(addr)]
+//@   ensures result != nil ==> accAddr(result) == bytes(addr) && acctCV[result] == bal[bytes(addr)] && acctOK[result] == balOK[bytes(addr)]
 //@   ensures forall a Iface {acctCV[a]} :: a != result ==> acctCV[a] == old(acctCV[a])
+//@   ensures forall a Iface {acctOK[a]} :: a != result ==> acctOK[a] == old(acctOK[a])
 //@ func (Keeper).SetAccount
 //@   trusted codec + store write: the record of the object's address now holds the object's coins
-//@   modifies bal, balHas
-//@   ensures bal == old(bal)[accAddr(acc) := acctCV[acc]] && balHas == old(balHas)[accAddr(acc) := true]
+//@   modifies bal, balHas, balOK
+//@   ensures bal == old(bal)[accAddr(acc) := acctCV[acc]] && balHas == old(balHas)[accAddr(acc) := true] && balOK == old(balOK)[accAddr(acc) := acctOK[acc]]
+// constructor of an empty base account: proved never to fail (a fresh account has no address
+// yet); the links between the new object and the ghost vocabulary are assumed
 //@ func (Keeper).NewAccountWithAddress
-//@   trusted constructor of an empty base account
-//@   modifies acctCV
-//@   ensures result1 == nil ==> result0 != nil && accAddr(iface(result0)) == bytes(addr) && acctCV[iface(result0)] == cvZero()
-//@   ensures forall a Iface {acctCV[a]} :: a != iface(result0) ==> acctCV[a] == old(acctCV[a])
+//@   props C17,C18
+//@   modifies acctCV, acctOK
+//@   ensures [never-fails] result1 == nil && result0 != nil
+//@   ensures_assumed result1 == nil ==> result0 != nil && accAddr(iface(result0)) == bytes(addr) && acctCV[iface(result0)] == cvZero() && acctOK[iface(result0)]
+//@   ensures_assumed forall a Iface {acctCV[a]} :: a != iface(result0) ==> acctCV[a] == old(acctCV[a])
+//@   ensures_assumed forall a Iface {acctOK[a]} :: a != iface(result0) ==> acctOK[a] == old(acctOK[a])
 //@ func (Keeper).GetModuleAddress
 //@   trusted lookup in the fixed module-permission table
 //@   pure_fn
@@ -39,11 +47,12 @@ package keeper
 //@   ensures result != nil ==> bytes(result) == modAddr(moduleName)
 //@ func (Keeper).GetModuleAccount
 //@   trusted module account lookup (creates and stores an EMPTY module account when none exists yet)
-//@   modifies acctCV, bal, balHas
+//@   modifies acctCV, acctOK, bal, balHas, balOK
 //@   ensures (result != nil) == modKnown(moduleName)
-//@   ensures result != nil ==> accAddr(result) == modAddr(moduleName) && balHas[modAddr(moduleName)] && acctCV[result] == bal[modAddr(moduleName)]
-//@   ensures old(balHas[modAddr(moduleName)]) || !modKnown(moduleName) ==> bal == old(bal) && balHas == old(balHas)
-//@   ensures !old(balHas[modAddr(moduleName)]) && modKnown(moduleName) ==> bal == old(bal)[modAddr(moduleName) := cvZero()] && balHas == old(balHas)[modAddr(moduleName) := true]
+//@   ensures result != nil ==> accAddr(result) == modAddr(moduleName) && balHas[modAddr(moduleName)] && acctCV[result] == bal[modAddr(moduleName)] && acctOK[result] == balOK[modAddr(moduleName)]
+//@   ensures old(balHas[modAddr(moduleName)]) || !modKnown(moduleName) ==> bal == old(bal) && balHas == old(balHas) && balOK == old(balOK)
+//@   ensures !old(balHas[modAddr(moduleName)]) && modKnown(moduleName) ==> bal == old(bal)[modAddr(moduleName) := cvZero()] && balHas == old(balHas)[modAddr(moduleName) := true] && balOK == old(balOK)[modAddr(moduleName) := true]
+//@   ensures forall a Iface {acctOK[a]} :: a != result ==> acctOK[a] == old(acctOK[a])
 //@   ensures forall a Iface {acctCV[a]} :: a != result ==> acctCV[a] == old(acctCV[a])
 //@   ensures result != nil ==> (forall p Str {macHasPerm(result, p)} :: macHasPerm(result, p) == macHasPermAt(moduleName, p))
 //@ func (Keeper).GetSupply
@@ -67,33 +76,41 @@ package keeper
 // ---- C18: balances ----------------------------------------------------------------------------
 //@ func (Keeper).GetCoins
 //@   props C18,C17
-//@   modifies acctCV
+//@   modifies acctCV, acctOK
 //@   ensures cv(result) == ite(balHas[bytes(addr)], bal[bytes(addr)], cvZero())
+//@   ensures [well-formed-as-stored] validCoins(result) == ite(balHas[bytes(addr)], balOK[bytes(addr)], true)
 
 //@ func (Keeper).HasCoins
 //@   props C18
-//@   modifies acctCV
+//@   modifies acctCV, acctOK
 //@   ensures result == cvGTE(ite(balHas[bytes(addr)], bal[bytes(addr)], cvZero()), cv(amt))
 
 // SetCoins: exactly the one record changes (created on first credit), or nothing
 //@ func (Keeper).SetCoins
 //@   props C18,C17
-//@   modifies acctCV, bal, balHas
+//@   modifies acctCV, acctOK, bal, balHas, balOK
 //@   ensures [writes-one] result == nil ==> bal == old(bal)[bytes(addr) := cv(amt)] && balHas == old(balHas)[bytes(addr) := true]
-//@   ensures [or-nothing] result != nil ==> bal == old(bal) && balHas == old(balHas)
+//@   ensures [valid-written] result == nil ==> validCoins(amt) && balOK == old(balOK)[bytes(addr) := true]
+//@   ensures [or-nothing] result != nil ==> bal == old(bal) && balHas == old(balHas) && balOK == old(balOK)
+//@   ensures [fails-only-on-malformed-coins] validCoins(amt) ==> result == nil
 //@   ensures [never-negative] result == nil ==> !cvNeg(cv(amt))
 
 // SubtractCoins: the spendable check comes first; on success exactly `amt` leaves `addr`
 //@ func (Keeper).SubtractCoins
 //@   props C18,C17
-//@   modifies acctCV, bal, balHas
+//@   modifies acctCV, acctOK, bal, balHas, balOK
+//@   ensures [amount-well-formed] result1 == nil ==> validCoins(amt) && balOK == old(balOK)[bytes(addr) := true]
+//@   ensures [or-nothing-ok] result1 != nil ==> balOK == old(balOK)
 //@   ensures [debits-exactly] result1 == nil ==> bal == old(bal)[bytes(addr) := cvSub(ite(old(balHas[bytes(addr)]), old(bal[bytes(addr)]), cvZero()), cv(amt))] && balHas == old(balHas)[bytes(addr) := true]
 //@   ensures [covered] result1 == nil ==> !cvNeg(cvSub(ite(old(balHas[bytes(addr)]), old(bal[bytes(addr)]), cvZero()), cv(amt)))
 //@   ensures [or-nothing] result1 != nil ==> bal == old(bal) && balHas == old(balHas)
 
 //@ func (Keeper).AddCoins
 //@   props C18,C17
-//@   modifies acctCV, bal, balHas
+//@   modifies acctCV, acctOK, bal, balHas, balOK
+//@   ensures [credit-cannot-fail] validCoins(amt) && (old(balHas[bytes(addr)]) ==> old(balOK[bytes(addr)])) ==> result1 == nil
+//@   ensures [ok-kept] result1 == nil ==> balOK == old(balOK)[bytes(addr) := true]
+//@   ensures [or-nothing-ok] result1 != nil ==> balOK == old(balOK)
 //@   ensures [credits-exactly] result1 == nil ==> bal == old(bal)[bytes(addr) := cvAdd(ite(old(balHas[bytes(addr)]), old(bal[bytes(addr)]), cvZero()), cv(amt))] && balHas == old(balHas)[bytes(addr) := true]
 //@   ensures [or-nothing] result1 != nil ==> bal == old(bal) && balHas == old(balHas)
 
@@ -102,7 +119,8 @@ package keeper
 //@ pure curBal(b map[Bytes]CV, h map[Bytes]bool, a Bytes) CV = ite(h[a], b[a], cvZero())
 //@ func (Keeper).SendCoins
 //@   props C18,C17
-//@   modifies acctCV, bal, balHas
+//@   modifies acctCV, acctOK, bal, balHas, balOK
+//@   ensures [failure-changes-nothing] result != nil && (old(balHas[bytes(toAddr)]) ==> old(balOK[bytes(toAddr)])) ==> bal == old(bal) && balHas == old(balHas)
 //@   ensures [moves-exactly] result == nil ==> bal == old(bal)[bytes(fromAddr) := cvSub(curBal(old(bal), old(balHas), bytes(fromAddr)), cv(amt))][bytes(toAddr) := cvAdd(curBal(old(bal)[bytes(fromAddr) := cvSub(curBal(old(bal), old(balHas), bytes(fromAddr)), cv(amt))], old(balHas)[bytes(fromAddr) := true], bytes(toAddr)), cv(amt))]
 //@   ensures [sender-covered] result == nil ==> !cvNeg(cvSub(curBal(old(bal), old(balHas), bytes(fromAddr)), cv(amt)))
 //@   ensures [uncovered-changes-nothing] cvNeg(cvSub(curBal(old(bal), old(balHas), bytes(fromAddr)), cv(amt))) ==> result != nil && bal == old(bal) && balHas == old(balHas)
@@ -110,7 +128,7 @@ package keeper
 
 //@ func (Keeper).SendCoinsFromModuleToAccount
 //@   props C18,C17
-//@   modifies acctCV, bal, balHas
+//@   modifies acctCV, acctOK, bal, balHas, balOK
 //@   ensures [from-module] result == nil ==> modKnown(senderModule) && !cvNeg(cvSub(curBal(old(bal), old(balHas), modAddr(senderModule)), cv(amt)))
 //@   ensures [moves-exactly] result == nil ==> bal == old(bal)[modAddr(senderModule) := cvSub(curBal(old(bal), old(balHas), modAddr(senderModule)), cv(amt))][bytes(recipientAddr) := cvAdd(curBal(old(bal)[modAddr(senderModule) := cvSub(curBal(old(bal), old(balHas), modAddr(senderModule)), cv(amt))], old(balHas)[modAddr(senderModule) := true], bytes(recipientAddr)), cv(amt))]
 //@   ensures [supply-untouched] supplyCV == old(supplyCV)
@@ -118,7 +136,7 @@ package keeper
 // ---- C17: mint and burn move the supply by exactly what they move one balance by -----------------
 //@ func (Keeper).MintCoins
 //@   props C17
-//@   modifies acctCV, bal, balHas, supplyCV
+//@   modifies acctCV, acctOK, bal, balHas, balOK, supplyCV
 //@   ensures [mints-exactly] result == nil ==> modKnown(moduleName) && macHasPermAt(moduleName, "minter") && bal == minted(old(bal), old(balHas), moduleName, cv(amt)) && supplyCV == cvAdd(old(supplyCV), cv(amt))
 //@   ensures [no-permission-no-mint] !modKnown(moduleName) ==> result != nil && supplyCV == old(supplyCV) && bal == old(bal)
 //@ pure minted(b map[Bytes]CV, h map[Bytes]bool, m Str, a CV) map[Bytes]CV = b[modAddr(m) := cvAdd(ite(h[modAddr(m)], b[modAddr(m)], cvZero()), a)]
@@ -126,7 +144,7 @@ package keeper
 
 //@ func (Keeper).BurnCoins
 //@   props C17
-//@   modifies acctCV, bal, balHas, supplyCV
+//@   modifies acctCV, acctOK, bal, balHas, balOK, supplyCV
 //@   ensures [burns-exactly] result == nil ==> modKnown(moduleName) && bal == old(bal)[modAddr(moduleName) := cvSub(ite(old(balHas[modAddr(moduleName)]), old(bal[modAddr(moduleName)]), cvZero()), cv(amt))] && supplyCV == cvSub(old(supplyCV), cv(amt))
 //@   ensures [covered] result == nil ==> !cvNeg(cvSub(ite(old(balHas[modAddr(moduleName)]), old(bal[modAddr(moduleName)]), cvZero()), cv(amt)))
 //@   ensures [failed-burn-keeps-supply] result != nil ==> supplyCV == old(supplyCV) && (forall a Bytes :: curBal(bal, balHas, a) == curBal(old(bal), old(balHas), a))
@@ -134,7 +152,7 @@ package keeper
 
 //@ func (Keeper).SendCoinsFromAccountToModule
 //@   props C18,C17,C15
-//@   modifies acctCV, bal, balHas
+//@   modifies acctCV, acctOK, bal, balHas, balOK
 //@   ensures [to-module] result == nil ==> modKnown(recipientModule) && !cvNeg(cvSub(curBal(old(bal), old(balHas), bytes(senderAddr)), cv(amt)))
 //@   ensures [moves-exactly] result == nil ==> bal == moved(modBal(old(bal), old(balHas), recipientModule), old(balHas)[modAddr(recipientModule) := true], bytes(senderAddr), modAddr(recipientModule), cv(amt))
 //@   ensures [uncovered-moves-nothing] cvNeg(cvSub(curBal(old(bal), old(balHas), bytes(senderAddr)), cv(amt))) && bytes(senderAddr) != modAddr(recipientModule) ==> result != nil && (forall a Bytes :: curBal(bal, balHas, a) == curBal(old(bal), old(balHas), a))
